@@ -562,6 +562,10 @@ func extractConcatMsg(repo string) (string, string, error) {
 	if funcs["ConcatMessages"] == nil || funcs["concatToolCalls"] == nil {
 		return "", "", fmt.Errorf("ConcatMessages / concatToolCalls not found")
 	}
+	// private helpers called once are inlined, and the names of the locals do not matter (c14_inline.go, c14_alpha.go)
+	c14InlineHelpers(f, map[string]bool{"ConcatMessages": true, "concatToolCalls": true, "ConcatMessageStream": true, "concatMessageArray": true})
+	c14AlphaCanon(funcs["ConcatMessages"], []string{"msgs", "contents", "contentLen", "toolCalls", "ret", "extraList", "idx", "msg", "sb", "content", "err", "merged", "extra"})
+	c14AlphaCanon(funcs["concatToolCalls"], []string{"chunks", "merged", "m", "i", "index", "args", "k", "v", "toolCall", "toolID", "toolType", "toolName", "n", "chunk", "err", "j", "iVal", "jVal"})
 	mh, err := classifyConcatMessages(funcs["ConcatMessages"])
 	if err != nil {
 		return "", "", err
